@@ -337,14 +337,13 @@ theorem mem_generate_states {C : Crys} {G : List Op} {thr : Rat} {J : List PS} {
     s ∈ (generate C G thr J N o).states ↔ s ∈ genStates J C.nsites N o := by
   simp [generate, mem_sortByKey]
 
-/-- **add_eq_generate_sum** (state sets): for `N₁, N₂ ≥ 1`, `S(N₁) += S(N₂)` either returns a star
-    set with `N₁+N₂` shells whose states are exactly those of `generate(N₁+N₂)`, or fails with the
-    source's IndexError precisely because no new state exists (`S(N₁+N₂) = S(N₁)`). -/
+/-- **add_eq_generate_sum** (state sets): for `N₁, N₂ ≥ 1`, `S(N₁) += S(N₂)` returns a star set
+    with `N₁+N₂` shells whose states are exactly those of `generate(N₁+N₂)` (also when the sum
+    reaches no new state, where the source returns early). -/
 theorem iadd_states_eq_generate_sum {C : Crys} {G : List Op} {thr : Rat} {J : List PS}
     (hJ : ∀ j ∈ J, j.isZero = false) {N1 N2 : Nat} {o1 o2 : Bool} (h1 : 1 ≤ N1) (h2 : 1 ≤ N2) :
-    match iadd C G thr (generate C G thr J N1 o1) (generate C G thr J N2 o2) with
-    | .ok R => R.nshells = N1 + N2 ∧ ∀ s, s ∈ R.states ↔ s ∈ (generate C G thr J (N1 + N2) o1).states
-    | .error _ => ∀ s, s ∈ (generate C G thr J (N1 + N2) o1).states ↔ s ∈ (generate C G thr J N1 o1).states := by
+    ∃ R, iadd C G thr (generate C G thr J N1 o1) (generate C G thr J N2 o2) = .ok R ∧
+      R.nshells = N1 + N2 ∧ ∀ s, s ∈ R.states ↔ s ∈ (generate C G thr J (N1 + N2) o1).states := by
   have hA : ¬ (generate C G thr J N1 o1).nshells < 1 := by simp [generate]; omega
   have hB : ¬ (generate C G thr J N2 o2).nshells < 1 := by simp [generate]; omega
   have hmem : ∀ s, s ∈ iaddNew (generate C G thr J N1 o1).states (generate C G thr J N2 o2).states ↔
@@ -354,30 +353,24 @@ theorem iadd_states_eq_generate_sum {C : Crys} {G : List Op} {thr : Rat} {J : Li
   unfold iadd
   simp only [hA, hB, if_false]
   split
-  · rename_i R hR
-    split at hR
-    · cases hR
-    · cases hR
-      refine ⟨rfl, fun s => ?_⟩
-      simp only [List.mem_append, mem_sortByKey, hmem, mem_generate_states]
-      exact iaddStates_eq hJ h1 h2 s
-  · rename_i e hR
-    split at hR
-    · rename_i hempty
-      intro s
-      rw [mem_generate_states, mem_generate_states, ← iaddStates_eq hJ h1 h2 s (o2 := o2)]
-      have : ∀ s, s ∉ iaddNew (genStates J C.nsites N1 o1) (genStates J C.nsites N2 o2) := by
-        intro s hs
-        have h' := (hmem s).2 hs
-        have := (mem_sortByKey (x2 C) _ s).2 h'
-        rw [List.isEmpty_iff.1 hempty] at this
-        simp at this
-      constructor
-      · rintro (h | h)
-        · exact h
-        · exact absurd h (this s)
-      · intro h; exact Or.inl h
-    · cases hR
+  · rename_i hempty
+    refine ⟨_, rfl, rfl, fun s => ?_⟩
+    show s ∈ (generate C G thr J N1 o1).states ↔ _
+    rw [mem_generate_states, mem_generate_states, ← iaddStates_eq hJ h1 h2 s (o2 := o2)]
+    have : ∀ s, s ∉ iaddNew (genStates J C.nsites N1 o1) (genStates J C.nsites N2 o2) := by
+      intro s hs
+      have h' := (hmem s).2 hs
+      have := (mem_sortByKey (x2 C) _ s).2 h'
+      rw [List.isEmpty_iff.1 hempty] at this
+      simp at this
+    constructor
+    · intro h; exact Or.inl h
+    · rintro (h | h)
+      · exact h
+      · exact absurd h (this s)
+  · refine ⟨_, rfl, rfl, fun s => ?_⟩
+    simp only [List.mem_append, mem_sortByKey, hmem, mem_generate_states]
+    exact iaddStates_eq hJ h1 h2 s
 
 /-! ### diffgenerate -/
 
